@@ -33,7 +33,8 @@ Proof.
   destruct (st s);
     try (destruct (read_line w) as [[l r]|]; [apply classify_quiet; exact H|reflexivity]).
   destruct (dec BeginLine w) as [[b r]|]; [|reflexivity].
-  unfold block_item. destruct H as (_ & _ & H3). rewrite H3. reflexivity.
+  unfold block_item. destruct H as (_ & _ & H3). rewrite H3.
+  destruct (match assoc b (t_hdr o) with Some h => h | None => None end); reflexivity.
 Qed.
 
 Lemma run_stream_quiet : forall fuel c o s w, no_extension o ->
